@@ -96,6 +96,14 @@ class Prop(PropBase):
                     t += 2
                 lines += ['R 0', 'E']
                 scn.append('\n'.join(lines))
+        # revolutions that hold very few valid points (0, 1, lasers-1, lasers, ...) in dense and NaN-kept output: each crossing still
+        # begins a new cloud and every non-empty frame is delivered on its own
+        import scen as _scen
+        for ti, name in enumerate(types):
+            for dn in (1, 0):
+                if tier == 'quick' and dn == 0 and ti % 3 != 0:
+                    continue
+                scn.append(_scen.sparse_scenario(rng, self.L, name, f'c03_sparse_{name}_{"d" if dn else "n"}', dense=dn, angle=[0, 12345, 35990][ti % 3], pktcb=1))
         # the crossing placed at every block position of a packet in turn (single and dual return, every type): whichever block
         # of a packet crosses the split angle opens the cloud
         for ti, name in enumerate(types):
